@@ -10,6 +10,7 @@ import (
 	"github.com/remieven/ysgo/markup"
 	"github.com/remieven/ysgo/verifharness/core"
 	"github.com/remieven/ysgo/verifharness/gen"
+	"github.com/remieven/ysgo/verifharness/model"
 	"github.com/remieven/ysgo/verifharness/mon"
 )
 
@@ -41,7 +42,7 @@ var c13Features = []string{
 }
 
 func (c13) Thresholds(tier string) map[string]int64 {
-	th := map[string]int64{"lines": 50000, "attributes-checked": 80000, "through-a-script": 3000, "text-for-attribute-calls": 80000}
+	th := map[string]int64{"lines": 50000, "attributes-checked": 80000, "through-a-script": 3000, "text-for-attribute-calls": 80000, "letters-supplied-by-interpolation": 2000}
 	for _, f := range c13Features {
 		th["f:"+f] = 200
 	}
@@ -49,7 +50,7 @@ func (c13) Thresholds(tier string) map[string]int64 {
 }
 
 func (c13) Rule() string {
-	return "case = 100 lines generated with ground truth by construction: a sequence of <=12 items {text chunk (ASCII, multi-byte, CJK, astral, blanks), \\[ \\], open marker, close by name (any open one: overlaps), close-all, self-closing marker (with the documented white-space rule and trimwhitespace=false), replacement marker select/plural/ordinal/nomarkup (self-closing or closed by name, every case, % placeholder)}, markers with 0-3 properties of every value kind (12, 007, 1.05, 0.007, 2.50, true/False/TRUE, quoted incl. escapes, bare words, shorthand [a=v]), blanks inside markers, optional 'Name: ' prefix (ASCII / multi-byte), white space at either edge; the generator records for every marker the rune range it encloses in the final trimmed text. Each line is parsed directly (fresh parser value) and, for script-safe lines, shown through a dialogue (Line.Attributes). Oracle: Text == ground truth; the attributes equal the ground truth as a multiset of (name, position, length, typed properties; floats with relative tolerance 1e-12); TextForAttribute(a) == the enclosed text. Non-trivial: >=2 markers of which two intersect, or a multi-byte rune before a marker, or a replacement marker. Distinct by hash of the line."
+	return "case = 100 lines generated with ground truth by construction: a sequence of <=12 items {text chunk (ASCII, multi-byte, CJK, astral, blanks), \\[ \\], open marker, close by name (any open one: overlaps), close-all, self-closing marker (with the documented white-space rule and trimwhitespace=false), replacement marker select/plural/ordinal/nomarkup (self-closing or closed by name, every case, % placeholder)}, markers with 0-3 properties of every value kind (12, 007, 1.05, 0.007, 2.50, true/False/TRUE, quoted incl. escapes, bare words, shorthand [a=v]), blanks inside markers, optional 'Name: ' prefix (ASCII / multi-byte), white space at either edge; the generator records for every marker the rune range it encloses in the final trimmed text. Each line is parsed directly (fresh parser value) and, for script-safe lines, shown through a dialogue (Line.Attributes), half of them with some plain letters outside the markers supplied by inline expressions (markup on interpolated text). Oracle: Text == ground truth; the attributes equal the ground truth as a multiset of (name, position, length, typed properties; floats with relative tolerance 1e-12); TextForAttribute(a) == the enclosed text. Non-trivial: >=2 markers of which two intersect, or a multi-byte rune before a marker, or a replacement marker. Distinct by hash of the line."
 }
 
 func (c13) Assumptions() []string {
@@ -239,15 +240,22 @@ func (p c13) Run(c *core.Ctx) {
 	if len(safe) == 0 {
 		return
 	}
-	// ---- the same lines shown by a dialogue runner
+	// ---- the same lines shown by a dialogue runner; in half of them some plain letters outside the
+	// markers are supplied by inline expressions ({$la} holds "a"), so that markup is parsed on
+	// interpolated text
 	var b strings.Builder
 	b.WriteString("title: Start\n---\n")
+	st := mon.NewRecStorer()
 	for _, mc := range safe {
-		b.WriteString(mc.Src + "\n")
+		src := mc.Src
+		if r.Bool() {
+			src = interpolateLetters(r, src, st, c)
+		}
+		b.WriteString(src + "\n")
 	}
 	b.WriteString("===\n")
 	script := b.String()
-	rr, err, pan := mon.Create(nil, "", []string{script})
+	rr, err, pan := mon.Create(st, "", []string{script})
 	if err != nil || pan != "" {
 		c.Violate("a script of well-formed marked-up lines failed to load", map[string]any{"readers": []string{script}, "error": fmt.Sprint(err), "panic": pan})
 		return
@@ -267,4 +275,38 @@ func (p c13) Run(c *core.Ctx) {
 		}
 		c.Feature("through-a-script")
 	}
+}
+
+// interpolateLetters replaces some ASCII letters that stand outside markers (and are not the first
+// character of the line) by {$l<letter>} and pre-loads those variables.
+func interpolateLetters(r *core.Rand, src string, st *mon.RecStorer, c *core.Ctx) string {
+	var b strings.Builder
+	inside := false
+	rs := []rune(src)
+	for i, ch := range rs {
+		switch {
+		case ch == '[' && (i == 0 || rs[i-1] != '\\'):
+			inside = true
+		case ch == ']' && inside:
+			inside = false
+			b.WriteRune(ch)
+			continue
+		}
+		// the raw content of an open-form nomarkup/select/... marker is outside brackets but not ordinary
+		// text either; letters are only replaced when no replacement marker is on the line
+		if !inside && i > 0 && (ch >= 'a' && ch <= 'z' || ch >= 'A' && ch <= 'Z') && r.Chance(1, 3) {
+			name := "l" + string(ch)
+			st.HostSet(name, model.S(string(ch)))
+			b.WriteString("{$" + name + "}")
+			c.Feature("letters-supplied-by-interpolation")
+			continue
+		}
+		b.WriteRune(ch)
+	}
+	for _, m := range []string{"[nomarkup", "[select", "[plural", "[ordinal"} {
+		if strings.Contains(src, m) {
+			return src
+		}
+	}
+	return b.String()
 }
